@@ -66,6 +66,7 @@ fn check_issuer(alg: Alg, ops: &[IssueSpec], st: &mut Stats) -> Verdict {
     st.label(&format!("history_length={}", ops.len()));
     let mut issuer = sut::new_issuer(alg, KeyId::Primary);
     let mut ok_steps = 0;
+    let mut seen_strings: std::collections::HashSet<String> = Default::default();
     let mut prev_ok: Option<&IssueSpec> = None;
     let mut had_failure = false;
     for (i, op) in ops.iter().enumerate() {
@@ -111,7 +112,25 @@ fn check_issuer(alg: Alg, ops: &[IssueSpec], st: &mut Stats) -> Verdict {
             }
             (None, Out::Ok(issued)) => {
                 let tree = mark(&spec.claims, &spec.strat).unwrap();
-                let (_, r) = check_issued(&spec, &tree, &issued).map_err(|f| Failure::new(format!("history:issuer:{}", f.signature), ctx(f.message)))?;
+                let (parts, r) = check_issued(&spec, &tree, &issued).map_err(|f| Failure::new(format!("history:issuer:{}", f.signature), ctx(f.message)))?;
+                // nothing issued earlier on this instance may recur: disclosures carry fresh salts,
+                // decoy digests are fresh random values
+                for d in parts.disclosures.iter().chain(r.unmatched_sd.iter()) {
+                    if !seen_strings.insert(d.clone()) {
+                        return Err(Failure::new(
+                            "history:issuer:reused-disclosure-or-decoy",
+                            ctx(format!("the disclosure / decoy digest {} already appeared in an earlier result of this issuer instance", sut::clip(d, 120))),
+                        ));
+                    }
+                }
+                // the JOSE header is what a fresh instance writes for the same arguments
+                if let Out::Ok(fresh) = sut::issue(&spec) {
+                    let hdr = |t: &str| crate::codec::split(t, spec.fmt).ok().and_then(|p| crate::codec::decode_jwt(&p.jwt).ok()).map(|j| j.header);
+                    let (a, b) = (hdr(&issued), hdr(&fresh));
+                    if a != b {
+                        return Err(Failure::new("history:issuer:header-differs-from-fresh-instance", ctx(format!("JOSE header {:?}, a fresh issuer instance writes {:?} for the same arguments", a, b))));
+                    }
+                }
                 if spec.decoys && r.unmatched_sd.is_empty() {
                     return Err(Failure::new("history:issuer:decoys-missing", ctx(format!("decoys were requested in this call but the result has none\n  issued: {}", sut::clip(&issued, 3000)))));
                 }
